@@ -33,24 +33,26 @@ func (Driver) ID() string { return "C17" }
 // ---- what the specification prints -----------------------------------------------------------------
 
 type Line struct {
-	A   int    `json:"a"` // position of the previous break, -1 = start of the paragraph
-	B   int    `json:"b"`
-	L   int    `json:"L"`
-	Def bool   `json:"def"`
-	N   int    `json:"n"`
-	D   int    `json:"d"`
-	Cls string `json:"cls"`
-	E   bool   `json:"e"` // empty line: nothing between the two breakpoints
+	A    int    `json:"a"` // position of the previous break, -1 = start of the paragraph
+	B    int    `json:"b"`
+	L    int    `json:"L"`
+	Def  bool   `json:"def"`
+	N    int    `json:"n"`
+	D    int    `json:"d"`
+	Cls  string `json:"cls"`
+	ClsX string `json:"clsx"` // exact reading (identity embedding)
+	E    bool   `json:"e"`    // empty line: nothing between the two breakpoints
 }
 
 type Judged struct {
-	B   []int  `json:"b"`
-	Cls string `json:"cls"`
-	Shr string `json:"shr"`
-	Dlo int64  `json:"dlo"`
-	Dhi int64  `json:"dhi"`
-	Mx  [2]int `json:"mx"`
-	Ls  []Line `json:"ls,omitempty"` // the breaking's own lines (long lists: no global line table)
+	B    []int  `json:"b"`
+	Cls  string `json:"cls"`
+	ClsX string `json:"clsx"`
+	Shr  string `json:"shr"`
+	Dlo  int64  `json:"dlo"`
+	Dhi  int64  `json:"dhi"`
+	Mx   [2]int `json:"mx"`
+	Ls   []Line `json:"ls,omitempty"` // the breaking's own lines (long lists: no global line table)
 }
 
 type Verdict struct {
@@ -62,6 +64,8 @@ type Verdict struct {
 	Brk      []Judged `json:"brk"`
 	SF       bool     `json:"sf"`
 	MinD     int64    `json:"mind"`
+	SFX      bool     `json:"sfx"`   // exact reading -1 <= r <= Tolerance: used for the identity embedding, where all
+	MinDX    int64    `json:"mindx"` // lengths are small integers and the library's float arithmetic is exact
 	AllInf   bool     `json:"allinf"`
 	Complete bool     `json:"complete"` // brk holds every breaking (otherwise: exactly those without a surely infeasible line)
 	SShr     bool     `json:"sshr"`
@@ -199,6 +203,12 @@ func judge(v *Verdict, r Result, s float64) (ms []core.Mismatch) {
 		add("panic-linebreak", "%s", r.Panic)
 		return
 	}
+	// identity embedding: integer lengths, exact float arithmetic -> the exact reading of [-1, Tolerance] applies
+	idEmb := s == 1
+	sf, minD := v.SF, v.MinD
+	if idEmb {
+		sf, minD = v.SFX, v.MinDX
+	}
 	n := len(v.Items)
 	if len(r.Pos) == 0 {
 		add("empty-result", "no breakpoints returned")
@@ -283,14 +293,18 @@ func judge(v *Verdict, r Result, s float64) (ms []core.Mismatch) {
 			exact = float64(ln.N) / float64(ln.D)
 		}
 		same := ln.Def && math.Abs(rr-exact) <= 1e-9*math.Max(1, math.Abs(exact))
-		switch ln.Cls {
+		lcls := ln.Cls
+		if idEmb && ln.ClsX != "" {
+			lcls = ln.ClsX
+		}
+		switch lcls {
 		case "F": // surely within [-1, Tolerance]: the reported ratio is the line's ratio
 			if !same {
 				add(rep("ratio-mismatch", ln), "line %d->%d of %v: reported Ratio %.12g, ratio of that line %d/%d", a, p, r.Pos, rr, ln.N, ln.D)
 			}
 		default: // outside (or borderline): the library documents the line as left unadjusted (0) - or its true ratio
 			if !same && rr != 0 {
-				add(rep("ratio-mismatch-unadjusted", ln), "line %d->%d of %v (class %s): reported Ratio %.12g, neither 0 nor the line's ratio %d/%d (defined=%v)", a, p, r.Pos, ln.Cls, rr, ln.N, ln.D, ln.Def)
+				add(rep("ratio-mismatch-unadjusted", ln), "line %d->%d of %v (class %s): reported Ratio %.12g, neither 0 nor the line's ratio %d/%d (defined=%v)", a, p, r.Pos, lcls, rr, ln.N, ln.D, ln.Def)
 			}
 		}
 	}
@@ -308,17 +322,21 @@ func judge(v *Verdict, r Result, s float64) (ms []core.Mismatch) {
 			add("machinery", "returned breaking %v not among the spec's breakings", r.Pos)
 			return
 		}
-		res = &Judged{B: r.Pos, Cls: "I", Shr: "B", Mx: [2]int{1, 0}}
-		if !v.SF {
+		res = &Judged{B: r.Pos, Cls: "I", ClsX: "I", Shr: "B", Mx: [2]int{1, 0}}
+		if !sf {
 			return
 		}
 	}
-	if v.SF {
-		// some breaking keeps every line surely within [-1, Tolerance]
-		if res.Cls == "I" {
-			opt("infeasible-result", "returned %v has a line outside [-1,Tolerance] although a feasible breaking exists (min demerits_hi %d)", r.Pos, v.MinD)
-		} else if res.Dlo > v.MinD {
-			opt("suboptimal", "returned %v has demerits >= %d/100, a feasible breaking has demerits <= %d/100", r.Pos, res.Dlo, v.MinD)
+	rcls := res.Cls
+	if idEmb && res.ClsX != "" {
+		rcls = res.ClsX
+	}
+	if sf {
+		// some breaking keeps every line surely (identity embedding: exactly) within [-1, Tolerance]
+		if rcls == "I" {
+			opt("infeasible-result", "returned %v has a line outside [-1,Tolerance] although a feasible breaking exists (min demerits_hi %d)", r.Pos, minD)
+		} else if res.Dlo > minD {
+			opt("suboptimal", "returned %v has demerits >= %d/100, a feasible breaking has demerits <= %d/100", r.Pos, res.Dlo, minD)
 		}
 		if !r.OK {
 			opt("overflow-reported-feasible", "overflow reported although a feasible breaking exists")
